@@ -391,6 +391,76 @@ class GGH(_Hash):
 
 
 
+@register
+class GGHPlain(_Hash):
+    """ggh_hash_plain(bits) on plain 0/1 values: sum_i b_i * k_i mod p with k_i the nothing-up-my-sleeve coefficients"""
+    name = "pysnark.ggh_hash:ggh_hash_plain"
+    ghost_as = None
+    cprops = tprops = ()
+    skip_facets = "CT"
+
+    def configs(self, tier):
+        return [dict(n=n) for n in (0, 1, 3)]
+
+    def setup(self, c, cfg):
+        apply_mode(c, "plain")
+        gm = c.w.import_module("pysnark.ggh_hash")
+        self._gm = gm
+        self._bits = [c.public_int("b%d" % i) for i in range(cfg["n"])]
+        for b in self._bits:
+            cur().assume(z3.Or(term(b) == 0, term(b) == 1))
+        return gm.ggh_hash_plain, (list(self._bits),), {}
+
+    def post(self, c, r, bits):
+        p = c.p
+        coefs = [_prng_reference(i, p) for i in range(len(bits))]
+        return {"V.modulus": self._gm.PRIME == p,
+                "V.value": Eq(r, z3.Sum([z3.IntVal(0)] + [k * term(b) for k, b in zip(coefs, bits)]) % p),
+                "V.plain_int": isinstance(r, int)}
+
+
+@register
+class GGHDispatch(_Hash):
+    """ggh_hash(bits): the traced hash as soon as one bit is secret, the plain one otherwise; the same number either way"""
+    name = "pysnark.ggh_hash:ggh_hash"
+    ghost_as = None
+
+    def configs(self, tier):
+        return [dict(kinds=k) for k in ("ss", "sk", "ks", "kk")]
+
+    def setup(self, c, cfg):
+        apply_mode(c, "plain")
+        gm = c.w.import_module("pysnark.ggh_hash")
+        self._gm = gm
+        bits = []
+        for i, ch in enumerate(cfg["kinds"]):
+            if ch == "s":
+                bits.append(c.operand_bool("b%d" % i).lc)
+            else:
+                k = c.public_int("b%d" % i)
+                cur().assume(z3.Or(term(k) == 0, term(k) == 1))
+                bits.append(k)
+        self._bits = bits
+        return gm.ggh_hash, (list(bits),), {}
+
+    def post(self, c, r, bits):
+        p = c.p
+        coefs = [_prng_reference(i, p) for i in range(len(bits))]
+        val = lambda b: term(b) if isinstance(b, int) else c.v(b)
+        want = z3.Sum([k * val(b) for k, b in zip(coefs, bits)])
+        secret = any(not isinstance(b, int) for b in bits)
+        d = {"V.traced_iff_a_bit_is_secret": hasattr(r, "lc") == secret}
+        if hasattr(r, "lc"):
+            d["V.value"] = modeq(c.v(r), want, p)
+            d["V.inv"] = c.inv(r)
+        else:
+            d["V.value"] = Eq(r, want % p)
+        return d
+
+    def counts(self, c, bits):
+        return (0, 0, 0)
+
+
 _PP_PROBE = r"""
 import sys, os, json, importlib
 cfg = json.load(open(sys.argv[1]))
